@@ -570,7 +570,11 @@ pub fn sim_config(cfg: &BerCfg) -> dstsim::Config {
         replay: cfg.schedule.clone(),
         stop_rule: true,
         stop_delay_max: 2000,
-        stop_bound: 10 * (2 * w + 10) * (w + 1) * 2,
+        // Deadlocks are detected exactly; this bound only catches livelocks (tasks that keep
+        // polling without the run ever ending). It is deliberately far above what the present
+        // hand-shake needs (about (2W+10)(W+1) fair steps), so that a different but correct
+        // hand-shake (work queues, flags, drains) cannot trip it.
+        stop_bound: 50_000 + 10 * (2 * w + 10) * (w + 1),
         par_tasks: 1,
         keep_events: true,
     }
@@ -1116,8 +1120,10 @@ pub fn oracle_c13(cfg: &BerCfg, obs: &BerObs) -> (Vec<Violation>, OracleStats) {
         v.push(Violation::new("transport", m.clone()));
         return (v, st);
     }
-    if hist.recv_after_err && cfg.stage_error() {
-        v.push(Violation::new("stop-rule", "the collector kept receiving after a worker reported an error".to_string()));
+    if hist.recv_after_err {
+        // harmless as such (a collector may drain and discard what is still queued); what
+        // matters is that the run ends with an error and that nothing more is counted
+        st.probes.inc("results received after a worker reported an error");
     }
     let mut folds: Vec<Vec<RefCounters>> = Vec::new(); // per point: prefix folds (index = frames)
     for (e, p) in hist.points.iter().enumerate() {
